@@ -46,10 +46,10 @@ class SubCheck(object):
     """
 
     def __init__(self, name, evaluate, strategy=None, enum=None, examples=(200, 2000), shards=(4, 16),
-                 floors=None, rule="", exhaustive_space=None, timeout=60.0):
+                 floors=None, rule="", exhaustive_space=None, timeout=60.0, fuzz=None):
         self.name, self.evaluate, self.strategy, self.enum = name, evaluate, strategy, enum
         self.examples, self.shards, self.floors, self.rule = examples, shards, floors or {}, rule
-        self.exhaustive_space, self.timeout = exhaustive_space, timeout
+        self.exhaustive_space, self.timeout, self.fuzz = exhaustive_space, timeout, fuzz
 
     def tier_index(self, tier):
         return 0 if tier == "quick" else 1
